@@ -320,7 +320,7 @@ impl Property for C03 {
         520
     }
     fn random_cases(&self, tier: Tier) -> u64 {
-        tier.pick(200_000, 3_000_000)
+        tier.pick(600_000, 4_000_000)
     }
     fn fuzz_runs(&self, _tier: Tier) -> u64 {
         120_000
